@@ -4,7 +4,8 @@
 (* log, and a compiler object that logs `submit` / `link` from the main process) are checked,    *)
 (* one TLC step per event,                                                                        *)
 (*   (P) against the property itself, evaluated on the log and the generator's module DAG:        *)
-(*       P-StartAfterDepsFinished, P-AtMostOnce, P-LinkAfterAll, P-SameLibraryAsSerial;           *)
+(*       P-StartAfterDepsFinished (observed, and predicted from an early submit), P-AtMostOnce,   *)
+(*       P-LinkAfterAll, P-SameLibraryAsSerial;                                                   *)
 (*   (M) against the next-state relation of JitBuild (refinement): every logged event must be     *)
 (*       enabled in the model after the main thread's hidden steps (JitBuild!Closure).            *)
 (* A failing P clause is a violation of C44; a failing M clause means the model does not describe *)
@@ -20,7 +21,7 @@ tvars == <<tid, l, s, h>>
 SeqSet(q) == {q[i] : i \in 1..Len(q)}
 Cfg(k) == [n |-> k.n, deps |-> [o \in 1..k.n |-> SeqSet(k.deps[o])], src |-> [o \in 1..k.n |-> k.src[o]],
            order |-> k.order, W |-> k.W]
-H0 == [started |-> {}, ended |-> {}, busy |-> {}, workers |-> {}, linked |-> FALSE]
+H0 == [started |-> {}, ended |-> {}, busy |-> {}, workers |-> {}, linked |-> FALSE, mfail |-> "", mpos |-> 0]
 StartOf(i) == IF i <= Len(Cases) THEN InitState(Cfg(Cases[i]), FALSE) ELSE <<>>
 
 \* ---- property clauses, on the log alone
@@ -29,6 +30,13 @@ PClause(c, hh, e) ==
          IF e.o \in hh.started THEN "P-AtMostOnce:second-start"
          ELSE IF ~(SrcDeps(c, e.o) \subseteq hh.ended) THEN "P-StartAfterDepsFinished"
          ELSE "ok"
+    [] e.a = "submit" ->
+         \* predictive clause: a compile command handed to the process pool may be started by any free worker
+         \* at any time (the pool is not Loki's), so with W > 1 submitting o while a provider of one of its
+         \* modules is unfinished admits a schedule with start(o) before end(d) -- the property quantifies
+         \* over all schedules.  (With W = 1 submit is the synchronous compile itself: see "start".)
+         IF c.W > 1 /\ e.o \in Objs(c) /\ ~(SrcDeps(c, e.o) \subseteq hh.ended)
+         THEN "P-StartAfterDepsFinished:early-submit" ELSE "ok"
     [] e.a = "link" ->
          IF ~(Sourced(c) \subseteq hh.ended) THEN "P-LinkAfterAll:object-never-compiled" ELSE "ok"
     [] OTHER -> "ok"
@@ -56,7 +64,7 @@ MClause(k, c, ss, hh, e) ==
 
 MFinal(k, c, ss, hh) ==
   IF ~hh.linked THEN "M-no-link-event"
-  ELSE IF k.model /\ ss.pc # "linked" THEN "M-model-not-linked"
+  ELSE IF k.model /\ hh.mfail = "" /\ ss.pc # "linked" THEN "M-model-not-linked"
   ELSE "ok"
 
 NextH(hh, e) ==
@@ -78,21 +86,25 @@ Next_ ==
         THEN LET pf == PFinal(k, c, h)
                  mf == MFinal(k, c, s, h)
              IN IF pf # "ok" THEN Verdict(k, FALSE, pf, l)
+                ELSE IF h.mfail # "" THEN Verdict(k, FALSE, h.mfail, h.mpos)
                 ELSE IF mf # "ok" THEN Verdict(k, FALSE, mf, l)
                 ELSE Verdict(k, TRUE, "ok", 0)
         ELSE LET e  == k.events[l]
                  pc == PClause(c, h, e)
-                 mc == IF pc = "ok" THEN MClause(k, c, s, h, e) ELSE "ok"
+                 \* after the first model mismatch the model is switched off and only P clauses are evaluated
+                 \* on the rest of the log; the mismatch is reported at the end unless a P clause fails
+                 mc == IF pc = "ok" /\ h.mfail = "" THEN MClause(k, c, s, h, e) ELSE "ok"
              IN IF pc # "ok" THEN Verdict(k, FALSE, pc, l)
-                ELSE IF mc # "ok" THEN Verdict(k, FALSE, mc, l)
-                ELSE /\ s' = IF k.model THEN Ap(c, Closure(c, s), ModelEv(e)) ELSE s
-                     /\ h' = NextH(h, e) /\ l' = l + 1 /\ tid' = tid
+                ELSE /\ s' = IF k.model /\ h.mfail = "" /\ mc = "ok" THEN Ap(c, Closure(c, s), ModelEv(e)) ELSE s
+                     /\ h' = [NextH(h, e) EXCEPT !.mfail = IF h.mfail = "" THEN (IF mc = "ok" THEN "" ELSE mc) ELSE h.mfail,
+                                                 !.mpos = IF h.mfail = "" /\ mc # "ok" THEN l ELSE h.mpos]
+                     /\ l' = l + 1 /\ tid' = tid
 
 TraceSpec == Init_ /\ [][Next_]_tvars
 
 \* the model's own invariants, re-checked on every state reached while replaying real logs
 ReplayedStatesSatisfyInvariants ==
-  (tid <= Len(Cases) /\ Cases[tid].model) =>
+  (tid <= Len(Cases) /\ Cases[tid].model /\ h.mfail = "") =>
      LET c == Cfg(Cases[tid]) IN StartAfterDepsFinishedP(c, s) /\ AtMostOnceP(c, s) /\ LinkAfterAllP(c, s)
                                  /\ ConcurrencyBoundP(c, s)
 =============================================================================
